@@ -10,7 +10,7 @@
 include!("probe.rs");
 extern crate alloc;
 
-// Pt, Shape, Perms, Color are re-exported at the root by the generated file
+// Pt, Shape, Perms, Color, Person are re-exported at the root by the generated file
 pub const P: usize = core::mem::size_of::<usize>();
 
 // ------------------------------------------------------------------------------------------------ allocation ledger
@@ -122,8 +122,25 @@ pub static mut SINK_RECORDS_LIVE: bool = false;
 pub static mut SINK_LEN: usize = 0;
 pub static mut SINK_ELEM0: (usize, usize) = (0, 0);
 pub static mut SINK_FIRST_BYTE: u8 = 0;
+pub static mut FVAR_CALLS: u32 = 0;
+pub static mut HOST_FVAR: (i32, u64) = (0, 0); // what the host lifted: (case, payload bits)
+pub static mut HOST_FVAR_RET: (u8, u64) = (0, 0); // what the host returns
 pub mod mockhost {
     use super::*;
+    /// send-fvar(variant { f(f32), w(u64), d(f64) }) -> the same type: flat (case, joined i64 slot, return pointer).  The host lifts as
+    /// CanonicalABI.md's lift_flat_variant does (an f32 in an i64 slot: wrap to i32, reinterpret) and stores its result canonically.
+    pub unsafe fn verif_val_sinks__send_fvar(case: i32, slot: i64, ret: *mut u8) {
+        unsafe {
+            FVAR_CALLS += 1;
+            HOST_FVAR = (case, if case == 0 { (slot as u32) as u64 } else { slot as u64 });
+            *ret = HOST_FVAR_RET.0;
+            if HOST_FVAR_RET.0 == 0 {
+                ret.add(8).cast::<u32>().write(HOST_FVAR_RET.1 as u32);
+            } else {
+                ret.add(8).cast::<u64>().write(HOST_FVAR_RET.1);
+            }
+        }
+    }
     /// nested-list(option<list<string>>): flat (discriminant, pointer to (ptr,len) records, length)
     pub unsafe fn verif_val_sinks__nested_list(disc: i32, records: *mut u8, len: usize) -> i32 {
         unsafe {
@@ -155,6 +172,14 @@ pub static mut SEEN_STRS: Option<Vec<String>> = None;
 pub static mut RET_STRS: Option<Vec<String>> = None;
 pub static mut SEEN_PAIRS: Option<Vec<(u8, u32, u8)>> = None;
 pub static mut RET_PAIRS: Option<Vec<(u8, u32, u8)>> = None;
+pub static mut SEEN_ENTRIES: Option<Vec<Entry>> = None;
+pub static mut RET_ENTRIES: Option<Vec<Entry>> = None;
+pub static mut SEEN_FVAR: Option<Fvar> = None;
+pub static mut RET_FVAR: Option<Fvar> = None;
+pub static mut SEEN_PERSON: Option<Person> = None;
+pub static mut RET_PERSON: Option<Person> = None;
+pub static mut SEEN_RSTR: Option<Result<String, u32>> = None;
+pub static mut RET_RSTR: Option<Result<String, u32>> = None;
 pub static mut SEEN_PT: (u8, u32) = (0, 0);
 pub static mut RET_PT: (u8, u32) = (0, 0);
 pub static mut SEEN_SHAPE: (u8, u64) = (0, 0); // (case, numeric payload)
@@ -219,6 +244,34 @@ impl Guest for Impl {
             CALLS += 1;
             SEEN_PAIRS = Some(a);
             RET_PAIRS.take().unwrap()
+        }
+    }
+    fn echo_entries(a: Vec<Entry>) -> Vec<Entry> {
+        unsafe {
+            CALLS += 1;
+            SEEN_ENTRIES = Some(a);
+            RET_ENTRIES.take().unwrap()
+        }
+    }
+    fn echo_fvar(a: Fvar) -> Fvar {
+        unsafe {
+            CALLS += 1;
+            SEEN_FVAR = Some(a);
+            RET_FVAR.take().unwrap()
+        }
+    }
+    fn echo_person(a: Person) -> Person {
+        unsafe {
+            CALLS += 1;
+            SEEN_PERSON = Some(a);
+            RET_PERSON.take().unwrap()
+        }
+    }
+    fn echo_rstr(a: Result<String, u32>) -> Result<String, u32> {
+        unsafe {
+            CALLS += 1;
+            SEEN_RSTR = Some(a);
+            RET_RSTR.take().unwrap()
         }
     }
     fn echo_pt(a: Pt) -> Pt {
@@ -685,11 +738,8 @@ mod proofs {
     /// list<string> with at most one element of at most one byte: the element records are read out of the host's list
     /// buffer (which is then freed by the guest), each element buffer is taken over once; the result list buffer and its
     /// element buffer are freed by post-return.
-    fn body_list_of_strings(values: bool, memory: bool) {
-        let n: usize = kani::any();
-        kani::assume(n <= 1);
-        let m: usize = kani::any();
-        kani::assume(m <= 1);
+    fn body_list_of_strings(values: bool, memory: bool, n: usize, m: usize) {
+        // list lengths fixed per harness (see body_entries); element strings of symbolic length <= 1 and symbolic content
         let inlen: usize = kani::any();
         kani::assume(inlen <= 1);
         let outlen: usize = kani::any();
@@ -698,8 +748,10 @@ mod proofs {
         let outb = ascii2();
         unsafe {
             let mut r: Vec<String> = Vec::new();
-            if m == 1 {
+            let mut j = 0;
+            while j < m {
                 r.push(string_of(&outb, outlen));
+                j += 1;
             }
             RET_STRS = Some(r);
             // the host lowers list<string>: one (ptr, len) record per element in a buffer aligned to the pointer size
@@ -708,21 +760,34 @@ mod proofs {
             } else {
                 let l = alloc_stub(Layout::from_size_align(2 * P * n, P).unwrap());
                 kani::assume(!l.is_null());
-                let e = host_buffer(&inb, inlen, 1);
-                l.cast::<*mut u8>().write(e);
-                l.add(P).cast::<usize>().write(inlen);
+                let mut i = 0;
+                while i < n {
+                    let e = host_buffer(&inb, inlen, 1);
+                    l.add(2 * P * i).cast::<*mut u8>().write(e);
+                    l.add(2 * P * i + P).cast::<usize>().write(inlen);
+                    i += 1;
+                }
                 l
             };
             let ret = _export_echo_strs_cabi::<Impl>(list, n);
             let seen = SEEN_STRS.take().unwrap();
-            if values { kani::assert(CALLS == 1 && seen.len() == n && (n < 1 || (seen[0].len() == inlen && (inlen < 1 || seen[0].as_bytes()[0] == inb[0]))), "the list of strings the host sent arrives unchanged"); }
+            if values {
+                kani::assert(CALLS == 1 && seen.len() == n, "the list of strings the host sent arrives with its length");
+                let mut i = 0;
+                while i < n {
+                    kani::assert(seen[i].len() == inlen && (inlen < 1 || seen[i].as_bytes()[0] == inb[0]), "each string the host sent arrives unchanged");
+                    i += 1;
+                }
+            }
             drop(seen);
             let (rp, rl): (*mut u8, usize) = (rd(ret, 0), rd(ret, P));
             if values {
                 kani::assert(rl == m, "the returned list has the returned length");
-                if m == 1 {
-                    let (ep, el): (*mut u8, usize) = (rd(rp, 0), rd(rp, P));
-                    kani::assert(el == outlen && (outlen < 1 || *ep == outb[0]), "the returned element reaches the host unchanged");
+                let mut j = 0;
+                while j < m {
+                    let (ep, el): (*mut u8, usize) = (rd(rp, 2 * P * j), rd(rp, 2 * P * j + P));
+                    kani::assert(el == outlen && (outlen < 1 || *ep == outb[0]), "each returned element reaches the host unchanged");
+                    j += 1;
                 }
             }
             __post_return_echo_strs::<Impl>(ret);
@@ -730,7 +795,8 @@ mod proofs {
             if memory { kani::assert(!BAD_FREE, "every block is freed at most once, with the size and alignment it was allocated with"); }
             if memory { kani::assert(live_blocks() == 0, "nothing is left allocated after post-return"); }
         }
-        kani::cover!(n == 1 && inlen == 1 && m == 1 && outlen == 1);
+        kani::cover!(inlen == 1 && outlen == 1);
+        kani::cover!(inlen == 0 && outlen == 0);
     }
     #[kani::proof]
     #[kani::unwind(4)]
@@ -740,8 +806,8 @@ mod proofs {
     #[kani::stub(alloc::alloc::dealloc_nonnull, dealloc_nonnull_stub)]
     #[kani::stub(alloc::alloc::realloc_nonnull, realloc_nonnull_stub)]
     #[kani::stub(alloc::string::String::from_utf8, from_utf8_stub)]
-    pub fn c05_list_of_strings_unchanged_both_ways() {
-        body_list_of_strings(true, false);
+    pub fn c05_list_of_strings_result_len0() {
+        body_list_of_strings(true, false, 0, 0);
     }
     #[kani::proof]
     #[kani::unwind(4)]
@@ -751,8 +817,96 @@ mod proofs {
     #[kani::stub(alloc::alloc::dealloc_nonnull, dealloc_nonnull_stub)]
     #[kani::stub(alloc::alloc::realloc_nonnull, realloc_nonnull_stub)]
     #[kani::stub(alloc::string::String::from_utf8, from_utf8_stub)]
-    pub fn c06_list_of_strings_memory_balanced() {
-        body_list_of_strings(false, true);
+    pub fn c05_list_of_strings_result_len1() {
+        body_list_of_strings(true, false, 0, 1);
+    }
+    #[kani::proof]
+    #[kani::unwind(4)]
+    #[kani::stub(alloc::alloc::alloc, alloc_stub)]
+    #[kani::stub(alloc::alloc::dealloc, dealloc_stub)]
+    #[kani::stub(alloc::alloc::realloc, realloc_stub)]
+    #[kani::stub(alloc::alloc::dealloc_nonnull, dealloc_nonnull_stub)]
+    #[kani::stub(alloc::alloc::realloc_nonnull, realloc_nonnull_stub)]
+    #[kani::stub(alloc::string::String::from_utf8, from_utf8_stub)]
+    pub fn c05_list_of_strings_result_len2() {
+        body_list_of_strings(true, false, 0, 2);
+    }
+    #[kani::proof]
+    #[kani::unwind(4)]
+    #[kani::stub(alloc::alloc::alloc, alloc_stub)]
+    #[kani::stub(alloc::alloc::dealloc, dealloc_stub)]
+    #[kani::stub(alloc::alloc::realloc, realloc_stub)]
+    #[kani::stub(alloc::alloc::dealloc_nonnull, dealloc_nonnull_stub)]
+    #[kani::stub(alloc::alloc::realloc_nonnull, realloc_nonnull_stub)]
+    #[kani::stub(alloc::string::String::from_utf8, from_utf8_stub)]
+    pub fn c05_list_of_strings_param_len1() {
+        body_list_of_strings(true, false, 1, 0);
+    }
+    #[kani::proof]
+    #[kani::unwind(4)]
+    #[kani::stub(alloc::alloc::alloc, alloc_stub)]
+    #[kani::stub(alloc::alloc::dealloc, dealloc_stub)]
+    #[kani::stub(alloc::alloc::realloc, realloc_stub)]
+    #[kani::stub(alloc::alloc::dealloc_nonnull, dealloc_nonnull_stub)]
+    #[kani::stub(alloc::alloc::realloc_nonnull, realloc_nonnull_stub)]
+    #[kani::stub(alloc::string::String::from_utf8, from_utf8_stub)]
+    pub fn c05_list_of_strings_param_len2() {
+        body_list_of_strings(true, false, 2, 0);
+    }
+    #[kani::proof]
+    #[kani::unwind(4)]
+    #[kani::stub(alloc::alloc::alloc, alloc_stub)]
+    #[kani::stub(alloc::alloc::dealloc, dealloc_stub)]
+    #[kani::stub(alloc::alloc::realloc, realloc_stub)]
+    #[kani::stub(alloc::alloc::dealloc_nonnull, dealloc_nonnull_stub)]
+    #[kani::stub(alloc::alloc::realloc_nonnull, realloc_nonnull_stub)]
+    #[kani::stub(alloc::string::String::from_utf8, from_utf8_stub)]
+    pub fn c06_list_of_strings_result_len0() {
+        body_list_of_strings(false, true, 0, 0);
+    }
+    #[kani::proof]
+    #[kani::unwind(4)]
+    #[kani::stub(alloc::alloc::alloc, alloc_stub)]
+    #[kani::stub(alloc::alloc::dealloc, dealloc_stub)]
+    #[kani::stub(alloc::alloc::realloc, realloc_stub)]
+    #[kani::stub(alloc::alloc::dealloc_nonnull, dealloc_nonnull_stub)]
+    #[kani::stub(alloc::alloc::realloc_nonnull, realloc_nonnull_stub)]
+    #[kani::stub(alloc::string::String::from_utf8, from_utf8_stub)]
+    pub fn c06_list_of_strings_result_len1() {
+        body_list_of_strings(false, true, 0, 1);
+    }
+    #[kani::proof]
+    #[kani::unwind(4)]
+    #[kani::stub(alloc::alloc::alloc, alloc_stub)]
+    #[kani::stub(alloc::alloc::dealloc, dealloc_stub)]
+    #[kani::stub(alloc::alloc::realloc, realloc_stub)]
+    #[kani::stub(alloc::alloc::dealloc_nonnull, dealloc_nonnull_stub)]
+    #[kani::stub(alloc::alloc::realloc_nonnull, realloc_nonnull_stub)]
+    #[kani::stub(alloc::string::String::from_utf8, from_utf8_stub)]
+    pub fn c06_list_of_strings_result_len2() {
+        body_list_of_strings(false, true, 0, 2);
+    }
+    #[kani::proof]
+    #[kani::unwind(4)]
+    #[kani::stub(alloc::alloc::alloc, alloc_stub)]
+    #[kani::stub(alloc::alloc::dealloc, dealloc_stub)]
+    #[kani::stub(alloc::alloc::realloc, realloc_stub)]
+    #[kani::stub(alloc::alloc::dealloc_nonnull, dealloc_nonnull_stub)]
+    #[kani::stub(alloc::alloc::realloc_nonnull, realloc_nonnull_stub)]
+    #[kani::stub(alloc::string::String::from_utf8, from_utf8_stub)]
+    pub fn c06_list_of_strings_param_len1() {
+        body_list_of_strings(false, true, 1, 0);
+    }
+    #[kani::proof]
+    #[kani::unwind(4)]
+    #[kani::stub(alloc::alloc::alloc, alloc_stub)]
+    #[kani::stub(alloc::alloc::dealloc, dealloc_stub)]
+    #[kani::stub(alloc::alloc::realloc, realloc_stub)]
+    #[kani::stub(alloc::alloc::dealloc_nonnull, dealloc_nonnull_stub)]
+    #[kani::stub(alloc::alloc::realloc_nonnull, realloc_nonnull_stub)]
+    #[kani::stub(alloc::string::String::from_utf8, from_utf8_stub)]
+    pub fn c06_list_of_strings_param_len2() {
+        body_list_of_strings(false, true, 2, 0);
     }
 
     /// list<tuple<u8, u32, u8>>, lengths 0..=2: a list whose element is a tuple is NOT a canonical list for Rust (rustc lays a
@@ -851,5 +1005,355 @@ mod proofs {
             kani::assert(live_blocks() == before, "after the call only the caller's own data is allocated: the scratch buffer was freed");
         }
         kani::cover!(some);
+    }
+
+    /// record { id: u16, name: string, tags: list<u8>, age: u8 }: heap data inside an aggregate, with padding around the scalars.
+    /// flat: (i32 id, ptr, len, ptr, len, i32 age); memory: id @0, name @P / @2P, tags @3P / @4P, age @5P
+    fn vec_of(b: &[u8; 2], n: usize) -> Vec<u8> {
+        let mut v = Vec::new();
+        if n >= 1 { v.push(b[0]); }
+        if n >= 2 { v.push(b[1]); }
+        v
+    }
+    fn body_person(values: bool, memory: bool) {
+        let (n, t, m, u): (usize, usize, usize, usize) = (kani::any(), kani::any(), kani::any(), kani::any());
+        kani::assume(n <= 1 && t <= 2 && m <= 1 && u <= 2);
+        let (id, age, rid, rage): (u16, u8, u16, u8) = (kani::any(), kani::any(), kani::any(), kani::any());
+        let nameb = ascii2();
+        let tagb: [u8; 2] = kani::any();
+        let rnameb = ascii2();
+        let rtagb: [u8; 2] = kani::any();
+        unsafe {
+            RET_PERSON = Some(Person { id: rid, name: string_of(&rnameb, m), tags: vec_of(&rtagb, u), age: rage });
+            let pn = host_buffer(&nameb, n, 1);
+            let pt = host_buffer(&tagb, t, 1);
+            let ret = _export_echo_person_cabi::<Impl>(id as i32, pn, n, pt, t, age as i32);
+            let seen = SEEN_PERSON.take().unwrap();
+            if values {
+                kani::assert(CALLS == 1 && seen.id == id && seen.age == age, "the scalar fields arrive unchanged");
+                kani::assert(seen.name.len() == n && (n < 1 || seen.name.as_bytes()[0] == nameb[0]), "the string field arrives unchanged");
+                kani::assert(seen.tags.len() == t && (t < 1 || seen.tags[0] == tagb[0]) && (t < 2 || seen.tags[1] == tagb[1]), "the list field arrives unchanged");
+            }
+            drop(seen);
+            if values {
+                kani::assert(rd::<u16>(ret, 0) == rid && rd::<u8>(ret, 5 * P) == rage, "the returned scalar fields sit at their canonical offsets");
+                let (np, nl): (*mut u8, usize) = (rd(ret, P), rd(ret, 2 * P));
+                kani::assert(nl == m && (m < 1 || *np == rnameb[0]), "the returned string field reaches the host unchanged");
+                let (tp, tl): (*mut u8, usize) = (rd(ret, 3 * P), rd(ret, 4 * P));
+                kani::assert(tl == u && (u < 1 || *tp == rtagb[0]) && (u < 2 || *tp.add(1) == rtagb[1]), "the returned list field reaches the host unchanged");
+            }
+            __post_return_echo_person::<Impl>(ret);
+            kani::assert(!LEDGER_FULL, "HARNESS-LIMIT: allocation ledger full");
+            if memory { kani::assert(!BAD_FREE, "every block is freed at most once, with the size and alignment it was allocated with"); }
+            if memory { kani::assert(live_blocks() == 0, "nothing is left allocated after post-return (both buffers of the record are released)"); }
+        }
+        kani::cover!(n == 1 && t == 2 && m == 1 && u == 2);
+    }
+    #[kani::proof]
+    #[kani::unwind(4)]
+    #[kani::stub(alloc::alloc::alloc, alloc_stub)]
+    #[kani::stub(alloc::alloc::dealloc, dealloc_stub)]
+    #[kani::stub(alloc::alloc::realloc, realloc_stub)]
+    #[kani::stub(alloc::alloc::dealloc_nonnull, dealloc_nonnull_stub)]
+    #[kani::stub(alloc::alloc::realloc_nonnull, realloc_nonnull_stub)]
+    #[kani::stub(alloc::string::String::from_utf8, from_utf8_stub)]
+    pub fn c05_record_with_heap_fields_unchanged_both_ways() {
+        body_person(true, false);
+    }
+    #[kani::proof]
+    #[kani::unwind(4)]
+    #[kani::stub(alloc::alloc::alloc, alloc_stub)]
+    #[kani::stub(alloc::alloc::dealloc, dealloc_stub)]
+    #[kani::stub(alloc::alloc::realloc, realloc_stub)]
+    #[kani::stub(alloc::alloc::dealloc_nonnull, dealloc_nonnull_stub)]
+    #[kani::stub(alloc::alloc::realloc_nonnull, realloc_nonnull_stub)]
+    #[kani::stub(alloc::string::String::from_utf8, from_utf8_stub)]
+    pub fn c06_record_with_heap_fields_memory_balanced() {
+        body_person(false, true);
+    }
+
+    /// result<string, u32>: flat (disc, joined pointer-or-i32 slot, len); memory disc @0, payload @P
+    fn body_rstr(values: bool, memory: bool) {
+        let in_ok: bool = kani::any();
+        let out_ok: bool = kani::any();
+        let (n, m): (usize, usize) = (kani::any(), kani::any());
+        kani::assume(n <= 2 && m <= 2);
+        let (e, re): (u32, u32) = (kani::any(), kani::any());
+        let inb = ascii2();
+        let outb = ascii2();
+        unsafe {
+            RET_RSTR = Some(if out_ok { Ok(string_of(&outb, m)) } else { Err(re) });
+            let ret = if in_ok {
+                let p = host_buffer(&inb, n, 1);
+                _export_echo_rstr_cabi::<Impl>(0, p, n)
+            } else {
+                // the error payload travels in the slot it shares with the pointer: an i32 value in a pointer-typed slot
+                _export_echo_rstr_cabi::<Impl>(1, e as usize as *mut u8, 0)
+            };
+            let seen = SEEN_RSTR.take().unwrap();
+            if values {
+                match &seen {
+                    Ok(s) => kani::assert(in_ok && s.len() == n && (n < 1 || s.as_bytes()[0] == inb[0]) && (n < 2 || s.as_bytes()[1] == inb[1]), "ok(string) arrives unchanged"),
+                    Err(x) => kani::assert(!in_ok && *x == e, "err(u32) arrives unchanged through the joined slot"),
+                }
+            }
+            drop(seen);
+            if values {
+                if out_ok {
+                    let (rp, rl): (*mut u8, usize) = (rd(ret, P), rd(ret, 2 * P));
+                    kani::assert(rd::<u8>(ret, 0) == 0 && rl == m && (m < 1 || *rp == outb[0]) && (m < 2 || *rp.add(1) == outb[1]), "ok(string) reaches the host unchanged");
+                } else {
+                    kani::assert(rd::<u8>(ret, 0) == 1 && rd::<u32>(ret, P) == re, "err(u32) is stored at the payload offset");
+                }
+            }
+            __post_return_echo_rstr::<Impl>(ret);
+            kani::assert(!LEDGER_FULL, "HARNESS-LIMIT: allocation ledger full");
+            if memory { kani::assert(!BAD_FREE, "every block is freed at most once, with the size and alignment it was allocated with"); }
+            if memory { kani::assert(live_blocks() == 0, "nothing is left allocated after post-return (a buffer is freed exactly when the result is ok)"); }
+        }
+        kani::cover!(in_ok && !out_ok);
+        kani::cover!(!in_ok && out_ok && m == 2);
+    }
+    #[kani::proof]
+    #[kani::unwind(4)]
+    #[kani::stub(alloc::alloc::alloc, alloc_stub)]
+    #[kani::stub(alloc::alloc::dealloc, dealloc_stub)]
+    #[kani::stub(alloc::alloc::realloc, realloc_stub)]
+    #[kani::stub(alloc::alloc::dealloc_nonnull, dealloc_nonnull_stub)]
+    #[kani::stub(alloc::alloc::realloc_nonnull, realloc_nonnull_stub)]
+    #[kani::stub(alloc::string::String::from_utf8, from_utf8_stub)]
+    pub fn c05_result_with_string_unchanged_both_ways() {
+        body_rstr(true, false);
+    }
+    #[kani::proof]
+    #[kani::unwind(4)]
+    #[kani::stub(alloc::alloc::alloc, alloc_stub)]
+    #[kani::stub(alloc::alloc::dealloc, dealloc_stub)]
+    #[kani::stub(alloc::alloc::realloc, realloc_stub)]
+    #[kani::stub(alloc::alloc::dealloc_nonnull, dealloc_nonnull_stub)]
+    #[kani::stub(alloc::alloc::realloc_nonnull, realloc_nonnull_stub)]
+    #[kani::stub(alloc::string::String::from_utf8, from_utf8_stub)]
+    pub fn c06_result_with_string_memory_balanced() {
+        body_rstr(false, true);
+    }
+
+    /// list<record { id: u64, name: string }>: an element-wise list whose element size mixes a byte part and a pointer part
+    /// (8 + 2P, alignment 8): id @0, name pointer @8, name length @8+P.  The list lengths are FIXED per harness (a symbolic length
+    /// makes `Vec<Entry>`'s iterator and drop glue several hundred seconds of CBMC; fixed lengths take seconds): n elements sent,
+    /// m elements returned; ids and string contents stay symbolic.
+    const ENTRY: usize = 8 + 2 * P;
+    fn body_entries(values: bool, memory: bool, n: usize, m: usize) {
+        let (inlen, outlen): (usize, usize) = (kani::any(), kani::any());
+        kani::assume(inlen <= 1 && outlen <= 1);
+        let (id, rid): (u64, u64) = (kani::any(), kani::any());
+        let inb = ascii2();
+        let outb = ascii2();
+        unsafe {
+            let mut r: Vec<Entry> = Vec::new();
+            let mut j = 0;
+            while j < m {
+                r.push(Entry { id: rid.wrapping_add(j as u64), name: string_of(&outb, outlen) });
+                j += 1;
+            }
+            RET_ENTRIES = Some(r);
+            let list: *mut u8 = if n == 0 {
+                8 as *mut u8
+            } else {
+                let l = alloc_stub(Layout::from_size_align(ENTRY * n, 8).unwrap());
+                kani::assume(!l.is_null());
+                let mut i = 0;
+                while i < n {
+                    let e = host_buffer(&inb, inlen, 1);
+                    l.add(ENTRY * i).cast::<u64>().write(id.wrapping_add(i as u64));
+                    l.add(ENTRY * i + 8).cast::<*mut u8>().write(e);
+                    l.add(ENTRY * i + 8 + P).cast::<usize>().write(inlen);
+                    i += 1;
+                }
+                l
+            };
+            let ret = _export_echo_entries_cabi::<Impl>(list, n);
+            let seen = SEEN_ENTRIES.take().unwrap();
+            if values {
+                kani::assert(CALLS == 1 && seen.len() == n, "the list the host sent arrives with its length");
+                let mut i = 0;
+                while i < n {
+                    kani::assert(seen[i].id == id.wrapping_add(i as u64) && seen[i].name.len() == inlen && (inlen < 1 || seen[i].name.as_bytes()[0] == inb[0]), "each element the host sent arrives unchanged, in order");
+                    i += 1;
+                }
+            }
+            drop(seen);
+            let (rp, rl): (*mut u8, usize) = (rd(ret, 0), rd(ret, P));
+            if values {
+                kani::assert(rl == m, "the returned list has the returned length");
+                let mut j = 0;
+                while j < m {
+                    let (eid, ep, el): (u64, *mut u8, usize) = (rd(rp, ENTRY * j), rd(rp, ENTRY * j + 8), rd(rp, ENTRY * j + 8 + P));
+                    kani::assert(eid == rid.wrapping_add(j as u64) && el == outlen && (outlen < 1 || *ep == outb[0]), "each returned element sits at the canonical stride and reaches the host unchanged");
+                    j += 1;
+                }
+            }
+            __post_return_echo_entries::<Impl>(ret);
+            kani::assert(!LEDGER_FULL, "HARNESS-LIMIT: allocation ledger full");
+            if memory { kani::assert(!BAD_FREE, "every block is freed at most once, with the size and alignment it was allocated with"); }
+            if memory { kani::assert(live_blocks() == 0, "nothing is left allocated after post-return"); }
+        }
+        kani::cover!(inlen == 1 && outlen == 1);
+        kani::cover!(inlen == 0 && outlen == 0);
+    }
+    #[kani::proof]
+    #[kani::unwind(4)]
+    #[kani::stub(alloc::alloc::alloc, alloc_stub)]
+    #[kani::stub(alloc::alloc::dealloc, dealloc_stub)]
+    #[kani::stub(alloc::alloc::realloc, realloc_stub)]
+    #[kani::stub(alloc::alloc::dealloc_nonnull, dealloc_nonnull_stub)]
+    #[kani::stub(alloc::alloc::realloc_nonnull, realloc_nonnull_stub)]
+    #[kani::stub(alloc::string::String::from_utf8, from_utf8_stub)]
+    pub fn c05_list_of_mixed_records_result_len0() {
+        body_entries(true, false, 0, 0);
+    }
+    #[kani::proof]
+    #[kani::unwind(4)]
+    #[kani::stub(alloc::alloc::alloc, alloc_stub)]
+    #[kani::stub(alloc::alloc::dealloc, dealloc_stub)]
+    #[kani::stub(alloc::alloc::realloc, realloc_stub)]
+    #[kani::stub(alloc::alloc::dealloc_nonnull, dealloc_nonnull_stub)]
+    #[kani::stub(alloc::alloc::realloc_nonnull, realloc_nonnull_stub)]
+    #[kani::stub(alloc::string::String::from_utf8, from_utf8_stub)]
+    pub fn c05_list_of_mixed_records_result_len1() {
+        body_entries(true, false, 0, 1);
+    }
+    #[kani::proof]
+    #[kani::unwind(4)]
+    #[kani::stub(alloc::alloc::alloc, alloc_stub)]
+    #[kani::stub(alloc::alloc::dealloc, dealloc_stub)]
+    #[kani::stub(alloc::alloc::realloc, realloc_stub)]
+    #[kani::stub(alloc::alloc::dealloc_nonnull, dealloc_nonnull_stub)]
+    #[kani::stub(alloc::alloc::realloc_nonnull, realloc_nonnull_stub)]
+    #[kani::stub(alloc::string::String::from_utf8, from_utf8_stub)]
+    pub fn c05_list_of_mixed_records_result_len2() {
+        body_entries(true, false, 0, 2);
+    }
+    #[kani::proof]
+    #[kani::unwind(4)]
+    #[kani::stub(alloc::alloc::alloc, alloc_stub)]
+    #[kani::stub(alloc::alloc::dealloc, dealloc_stub)]
+    #[kani::stub(alloc::alloc::realloc, realloc_stub)]
+    #[kani::stub(alloc::alloc::dealloc_nonnull, dealloc_nonnull_stub)]
+    #[kani::stub(alloc::alloc::realloc_nonnull, realloc_nonnull_stub)]
+    #[kani::stub(alloc::string::String::from_utf8, from_utf8_stub)]
+    pub fn c05_list_of_mixed_records_param_len1() {
+        body_entries(true, false, 1, 0);
+    }
+    #[kani::proof]
+    #[kani::unwind(4)]
+    #[kani::stub(alloc::alloc::alloc, alloc_stub)]
+    #[kani::stub(alloc::alloc::dealloc, dealloc_stub)]
+    #[kani::stub(alloc::alloc::realloc, realloc_stub)]
+    #[kani::stub(alloc::alloc::dealloc_nonnull, dealloc_nonnull_stub)]
+    #[kani::stub(alloc::alloc::realloc_nonnull, realloc_nonnull_stub)]
+    #[kani::stub(alloc::string::String::from_utf8, from_utf8_stub)]
+    pub fn c05_list_of_mixed_records_param_len2() {
+        body_entries(true, false, 2, 0);
+    }
+    #[kani::proof]
+    #[kani::unwind(4)]
+    #[kani::stub(alloc::alloc::alloc, alloc_stub)]
+    #[kani::stub(alloc::alloc::dealloc, dealloc_stub)]
+    #[kani::stub(alloc::alloc::realloc, realloc_stub)]
+    #[kani::stub(alloc::alloc::dealloc_nonnull, dealloc_nonnull_stub)]
+    #[kani::stub(alloc::alloc::realloc_nonnull, realloc_nonnull_stub)]
+    #[kani::stub(alloc::string::String::from_utf8, from_utf8_stub)]
+    pub fn c06_list_of_mixed_records_result_len0() {
+        body_entries(false, true, 0, 0);
+    }
+    #[kani::proof]
+    #[kani::unwind(4)]
+    #[kani::stub(alloc::alloc::alloc, alloc_stub)]
+    #[kani::stub(alloc::alloc::dealloc, dealloc_stub)]
+    #[kani::stub(alloc::alloc::realloc, realloc_stub)]
+    #[kani::stub(alloc::alloc::dealloc_nonnull, dealloc_nonnull_stub)]
+    #[kani::stub(alloc::alloc::realloc_nonnull, realloc_nonnull_stub)]
+    #[kani::stub(alloc::string::String::from_utf8, from_utf8_stub)]
+    pub fn c06_list_of_mixed_records_result_len1() {
+        body_entries(false, true, 0, 1);
+    }
+    #[kani::proof]
+    #[kani::unwind(4)]
+    #[kani::stub(alloc::alloc::alloc, alloc_stub)]
+    #[kani::stub(alloc::alloc::dealloc, dealloc_stub)]
+    #[kani::stub(alloc::alloc::realloc, realloc_stub)]
+    #[kani::stub(alloc::alloc::dealloc_nonnull, dealloc_nonnull_stub)]
+    #[kani::stub(alloc::alloc::realloc_nonnull, realloc_nonnull_stub)]
+    #[kani::stub(alloc::string::String::from_utf8, from_utf8_stub)]
+    pub fn c06_list_of_mixed_records_result_len2() {
+        body_entries(false, true, 0, 2);
+    }
+    #[kani::proof]
+    #[kani::unwind(4)]
+    #[kani::stub(alloc::alloc::alloc, alloc_stub)]
+    #[kani::stub(alloc::alloc::dealloc, dealloc_stub)]
+    #[kani::stub(alloc::alloc::realloc, realloc_stub)]
+    #[kani::stub(alloc::alloc::dealloc_nonnull, dealloc_nonnull_stub)]
+    #[kani::stub(alloc::alloc::realloc_nonnull, realloc_nonnull_stub)]
+    #[kani::stub(alloc::string::String::from_utf8, from_utf8_stub)]
+    pub fn c06_list_of_mixed_records_param_len1() {
+        body_entries(false, true, 1, 0);
+    }
+    #[kani::proof]
+    #[kani::unwind(4)]
+    #[kani::stub(alloc::alloc::alloc, alloc_stub)]
+    #[kani::stub(alloc::alloc::dealloc, dealloc_stub)]
+    #[kani::stub(alloc::alloc::realloc, realloc_stub)]
+    #[kani::stub(alloc::alloc::dealloc_nonnull, dealloc_nonnull_stub)]
+    #[kani::stub(alloc::alloc::realloc_nonnull, realloc_nonnull_stub)]
+    #[kani::stub(alloc::string::String::from_utf8, from_utf8_stub)]
+    pub fn c06_list_of_mixed_records_param_len2() {
+        body_entries(false, true, 2, 0);
+    }
+
+    /// variant { f(f32), w(u64), d(f64) }: an f32 whose payload slot another case widens to i64; every bit pattern (NaNs included), both
+    /// directions of an export and of an import
+    fn fvar_of(case: u8, bits: u64) -> Fvar {
+        match case {
+            0 => Fvar::F(f32::from_bits(bits as u32)),
+            1 => Fvar::W(bits),
+            _ => Fvar::D(f64::from_bits(bits)),
+        }
+    }
+    fn fvar_bits(v: &Fvar) -> (u8, u64) {
+        match v {
+            Fvar::F(x) => (0, x.to_bits() as u64),
+            Fvar::W(x) => (1, *x),
+            Fvar::D(x) => (2, x.to_bits()),
+        }
+    }
+    fn any_fvar_bits() -> (u8, u64) {
+        let (c, b): (u8, u64) = (kani::any(), kani::any());
+        kani::assume(c < 3);
+        (c, if c == 0 { (b as u32) as u64 } else { b })
+    }
+    #[kani::proof]
+    pub fn c05_f32_in_wide_variant_export_unchanged() {
+        let (c, b) = any_fvar_bits();
+        let (rc, rb) = any_fvar_bits();
+        unsafe {
+            RET_FVAR = Some(fvar_of(rc, rb));
+            let ret = _export_echo_fvar_cabi::<Impl>(c as i32, b as i64); // the host zero-extends an f32's bits into the i64 slot
+            let seen = SEEN_FVAR.take().unwrap();
+            kani::assert(CALLS == 1 && fvar_bits(&seen) == (c, b), "the case and payload bits the host sent arrive unchanged");
+            kani::assert(rd::<u8>(ret, 0) == rc, "the returned case is stored as the discriminant");
+            kani::assert(if rc == 0 { rd::<u32>(ret, 8) as u64 == rb } else { rd::<u64>(ret, 8) == rb }, "the returned payload bits are stored at the payload offset");
+        }
+    }
+    #[kani::proof]
+    pub fn c05_f32_in_wide_variant_import_unchanged() {
+        let (c, b) = any_fvar_bits();
+        let (rc, rb) = any_fvar_bits();
+        unsafe {
+            HOST_FVAR_RET = (rc, rb);
+            let r = verif::val::sinks::send_fvar(fvar_of(c, b));
+            kani::assert(FVAR_CALLS == 1 && HOST_FVAR == (c as i32, b), "the host lifts the case and exactly the payload bits the guest sent");
+            kani::assert(fvar_bits(&r) == (rc, rb), "the guest receives the case and exactly the payload bits the host returned");
+        }
     }
 }
